@@ -1,8 +1,10 @@
 package main
 
 import (
-	"go/token"
 	"fmt"
+	"go/token"
+	"go/types"
+	"sort"
 	"strings"
 
 	"golang.org/x/tools/go/ssa"
@@ -68,6 +70,7 @@ func runC19(c *Ctx) {
 	}
 	const NI = "consensus/sync.NodeInfo"
 	checkCacheIndexesCoUpdated(c, "C19.R6 cache-indexes-co-updated")
+	checkHandlersServeTheChain(c)
 
 	// ---- R1
 	{
@@ -912,4 +915,87 @@ func checkParkedBlocksSurvive(c *Ctx, rule string) {
 		c.Require(rule, FuncName(restore)+": no clear before the saved blocks are read", p.Pos(restore.Pos()), "nothing on the way from restoreBlocks to reading the saved blocks empties the temp table", true, fmt.Sprintf("%d functions walked", len(seen)))
 	}
 	c.MinInstances(rule, n, 1)
+}
+
+// checkHandlersServeTheChain — R7. What a peer is told about this node's chain (its tip, the
+// highest common block, a segment) is what peer selection, the common-block search and the
+// downloader of the *other* node work with; it is the chain as it is when the request arrives.
+// Structural condition: the sync RPC handlers keep nothing between requests — no function of the
+// sync package reachable from a HandleRPCEndpoint* handler stores to a field of a sync-package
+// object or to a package variable (a remembered answer survives a tip replacement at the same
+// height, a revert, a restart of the sync). Caching inside pkg/blockchain is that package's
+// business (C20/C05 rules watch it).
+func checkHandlersServeTheChain(c *Ctx) {
+	p := c.P
+	rule := "C19.R7 handlers-serve-the-chain"
+	n := 0
+	// the objects that outlive a request: the Syncer and what it holds (within the package)
+	longLived := map[string]bool{}
+	if sy := p.Fn("pkg/consensus/sync.(*Syncer).HandleRPCEndpointGetLastBlock"); sy != nil && sy.Signature.Recv() != nil {
+		var walk func(t types.Type, d int)
+		walk = func(t types.Type, d int) {
+			o, st := ownerOfFieldBase(t)
+			if st == nil || d > 3 || longLived[o] || !strings.HasPrefix(o, "consensus/sync.") {
+				return
+			}
+			longLived[o] = true
+			for i := 0; i < st.NumFields(); i++ {
+				walk(st.Field(i).Type(), d+1)
+			}
+		}
+		walk(sy.Signature.Recv().Type(), 0)
+	}
+	c.Count("long-lived sync objects (Syncer and what it holds)", len(longLived))
+	for _, fn := range p.OwnFuncs {
+		if !IsProd(fn) || !strings.HasPrefix(FuncKey(fn), "pkg/consensus/sync.(*Syncer).HandleRPCEndpoint") || fn.Parent() != nil {
+			continue
+		}
+		roots := []*ssa.Function{fn}
+		roots = append(roots, fn.AnonFuncs...)
+		via := reachableFrom(p, roots, func(g *ssa.Function) bool { return !strings.HasPrefix(FuncKey(g), "pkg/consensus/sync.") })
+		bad := ""
+		var fs []*ssa.Function
+		for g := range via {
+			fs = append(fs, g)
+		}
+		sort.Slice(fs, func(i, j int) bool { return FuncKey(fs[i]) < FuncKey(fs[j]) })
+		for _, g := range fs {
+			for _, b := range g.Blocks {
+				for _, in := range b.Instrs {
+					var addr ssa.Value
+					switch x := in.(type) {
+					case *ssa.Store:
+						addr = x.Addr
+					case *ssa.MapUpdate:
+						if ld, ok := x.Map.(*ssa.UnOp); ok {
+							addr = ld.X
+						}
+					}
+					if addr == nil {
+						continue
+					}
+					switch a := addr.(type) {
+					case *ssa.FieldAddr:
+						o, st := ownerOfFieldBase(a.X.Type())
+						if st == nil || !longLived[o] {
+							continue // request/response objects built for this call
+						}
+						if _, fresh := a.X.(*ssa.Alloc); fresh {
+							continue
+						}
+						if bad == "" {
+							bad = FuncKey(g) + " stores to " + o + "." + fieldNameOf(st.Field(a.Field)) + " at " + p.InstrPos(in)
+						}
+					case *ssa.Global:
+						if bad == "" && a.Pkg != nil && strings.HasSuffix(a.Pkg.Pkg.Path(), "pkg/consensus/sync") {
+							bad = FuncKey(g) + " stores to package variable " + a.Name() + " at " + p.InstrPos(in)
+						}
+					}
+				}
+			}
+		}
+		n++
+		c.Require(rule, FuncKey(fn), p.Pos(fn.Pos()), "the handler answers from the chain as it is now: nothing reachable from it inside the sync package keeps state between requests", bad == "", bad)
+	}
+	c.MinInstances(rule, n, 3)
 }
